@@ -13,7 +13,7 @@ from leanfmt import cps, lean_list
 
 ID = "C17"
 LEAN_MODULES = ["EzdxfVerif.Props.C17"]
-DRIVER_DEPS = ["EzdxfVerif.Model.Xref", "EzdxfVerif.Gen.XrefTables", "Drivers.Proto"]
+DRIVER_DEPS = ["EzdxfVerif.Model.Xref", "EzdxfVerif.Model.XrefOv", "EzdxfVerif.Gen.XrefTables", "EzdxfVerif.Gen.XrefOverrides", "Drivers.Proto"]
 RULE = (
     "correspondence (Lean driver C17 vs real code): X1 _Transfer.map_pointers (tags over all pointer-class boundaries 319/320/329/330/.../481/482/1005, "
     "handle maps with hits, misses and '0', owner side effect on real target objects), DXFEntity.map_resources (XDATA 1005/1003, reactors), "
@@ -29,22 +29,37 @@ RULE = (
     "occupied) x {load_modelspace, filtered, load_paperspace, Loader mix into a block, load_block_layout(_into), all resources, write_block, detach+embed, "
     "Importer} x 3 policies x version pairs R2000..R2018: source snapshot unchanged; written target passes harness/dxfparse.check_file, audit clean; every "
     "pointer-code tag / XDATA 1005 of every new record resolves or is 0; per transferred record tag-by-tag: pointers = sigma(source pointer) or 0, other tags "
-    "equal, names mapped as the policy prescribes; block contents and layout order are the image of the source; referenced resources exist."
+    "equal, names mapped as the policy prescribes; block contents and layout order are the image of the source; referenced resources exist. "
+    "Session 3: regenerate() also extracts EVERY register_resources/map_resources override (T-ast, harness/translate/overrides_c17.py) joined with the live "
+    "DXFATTRIBS into Gen/XrefOverrides.lean (92 entity types; version gates translated); generator features chain / blk_refs / softdict / sortents / dictdflt / "
+    "solid3d / vp_frozen, overlapping handle ranges, DXF R12 sources (DSTYLE override lists compared name-form vs handle-form), a pointer nulled although its "
+    "referent was transferred is a failure, fixed minimal cases of the session-3 defects; X4 also compares the owner of restored block content; X5: the real "
+    "map_resources of every registered copyable entity type that can be instantiated from attributes (54+ types) on generated values of every declared handle "
+    "attribute (absent / '0' / copied / not copied) and name attribute (absent / mapped in another letter case / chained / unknown) with a real _Transfer vs "
+    "mapAttrs / mapNames over the extracted events (values taken from target objects and statements under undecided tests match anything)."
 )
 TRUSTED_BASE = [
-    "hand model Model/Xref.lean of xref.py (validated by X1-X4, not proved); per-entity register_resources/map_resources overrides are not modelled",
+    "hand model Model/Xref.lean of xref.py (validated by X1-X4, not proved)",
+    "T-ast walker harness/translate/overrides_c17.py: statement-level abstraction of the per-entity register_resources/map_resources overrides "
+    "(idioms it does not understand become visible 'opaque' events without semantics); its reading of the handle / name statements and their guards is "
+    "validated per entity type by correspondence X5 (real map_resources vs Model/XrefOv.lean), not proved; hand-written, examined exception lists "
+    "PTR_EXCEPTIONS / NAME_EXCEPTIONS",
     "ASCII case folding stands for str.lower() in make_table_key",
     "harness/dxfparse.py + the tag-level record comparison of harness/props/c17.py (oracle side)",
     "the handle allocation of CopyMachine/factory.bind enters the graph theorems as hypothesis WF (injective, fresh, non-null)",
 ]
 ASSUMPTIONS = [
-    "target DXF version >= source DXF version (documented precondition of the Loader)",
+    "target DXF version >= source DXF version (documented precondition of the Loader); DXF R12 sources go into every target version",
     "generated names are ASCII and free of backslashes; source documents pass doc.audit() before the transfer",
 ]
 OPEN = [
-    "transfer_closed covers the generic pointer fields (pointer-code tags, XDATA handles, resource handles); the structural links of a restored block record are "
-    "proved for one registration step (block_record_restore), not carried through the whole transfer",
-    "the bodies of the ~50 per-entity map_resources overrides are oracle-only",
+    "the override table is a statement-level abstraction: opaque / delegated statements (MLEADER context, ACIS conversion, Dictionary entry recursion, "
+    "set_required_attributes) have no semantics in the model; handle data outside DXF attributes (GROUP, HATCH paths, SORTENTSTABLE rows, DICTIONARY entries) "
+    "is covered by @field events and the oracle, not by registered_types_closed",
+    "block_record_restore_transfer takes as hypothesis that no other registered entry claims the same copies (hne / hdis at the level of sigma-images); "
+    "deriving it from a well-formed source (each entity in one block) + injectivity of sigma is not done",
+    "observation, not fixed: a layer named only by an XDATA 1003 tag is mapped by name but not registered (name exception '@xdata')",
+    "a second-level in-object copy (entry of a hard-owner dictionary inside a hard-owner dictionary) gets no entry in the handle mapping: pointers to it become null",
 ]
 
 logging.getLogger("ezdxf").setLevel(logging.CRITICAL)
@@ -191,6 +206,194 @@ end EzdxfVerif.Gen.XrefTables
     if "return not bool(INVALID_LAYER_NAME_CHARACTERS.intersection(chars))" not in v:
         raise ValueError("validator.is_valid_table_name changed: revisit Model/Xref.lean isAdskSpecial")
     ctx.write_gen("XrefTables", text, srcs)
+    regenerate_overrides(ctx)
+
+
+# ------------------------------------------------------------------ T-ast: the register_resources / map_resources overrides
+# resource-name attributes (harness-owned, from the DXF reference): (attribute name, group code) -> kind; class specific ones below
+NAME_ATTRS = {("layer", 8): "layer", ("linetype", 6): "linetype", ("style", 7): "textstyle", ("dimstyle", 3): "dimstyle",
+              ("geometry", 2): "block"}
+NAME_ATTRS_BY_TYPE = {
+    "INSERT": {"name": "block"}, "BLOCK": {"name": "block"},
+    "DIMSTYLE": {"dimtxsty": "textstyle", "dimblk": "block", "dimblk1": "block", "dimblk2": "block", "dimldrblk": "block",
+                 "dimltype": "linetype", "dimltex1": "linetype", "dimltex2": "linetype"},
+    "MLINE": {"style_name": "mlinestyle"},
+}
+VIA_CODE = {"handle": 0, "existing": 1, "existing_opt": 2, "discard": 3, "layer": 4, "linetype": 5, "textstyle": 6, "dimstyle": 7,
+            "block": 8, "copyref": 9, "pointers": 10, "opaque": 11, "mlinestyle": 12, "entity": 13, "appid": 14, "blockdef": 15}
+# Declared handle attributes that NO statement of the map_resources chain touches, with the reason why the copy is closed all the
+# same.  Every entry was examined on the real code in session 3 (the ones that were NOT closed became fix commits: SORTENTSTABLE,
+# ACDBDICTIONARYWDFLT.default, 3DSOLID.history_handle).  A new unhandled attribute is a failing proof, not a silent pass.
+PTR_EXCEPTIONS = {
+    "DIMSTYLE": ({"dimtxsty_handle", "dimblk_handle", "dimblk1_handle", "dimblk2_handle", "dimldrblk_handle", "dimltype_handle",
+                  "dimltex1_handle", "dimltex2_handle"},
+                 "load/export-time attributes: export_entity recomputes them from the (mapped) resource NAMES of the copy"),
+    "IMAGE": ({"image_def_handle", "image_def_reactor_handle"},
+              "derived at export from the object links image_def / _image_def_reactor, which map_resources re-links (@image_def copyref)"),
+    "WIPEOUT": ({"image_def_handle", "image_def_reactor_handle"}, "always '0': a WIPEOUT has no image definition"),
+    "IMAGEDEF_REACTOR": ({"image_handle"}, "the copy of an IMAGE gets a NEW reactor from the target document (oracle: unified/IMAGEDEF_REACTOR)"),
+    "LAYOUT": ({"block_record_handle"}, "assigned by _Transfer.create_empty_paperspace_layout to the new layout block of the target"),
+    "BLOCK_RECORD": ({"layout"}, "'0' for block definitions; BLOCK_RECORDs of layouts are never copied (load_paperspace creates a new layout)"),
+    "VIEW": ({"ucs_handle", "base_ucs_handle", "background_handle", "live_selection_handle", "visual_style_handle", "sun_handle"},
+             "VIEW table entries are reached by no loading command and by no register_resources"),
+    "VPORT": ({"ucs_handle", "base_ucs_handle", "background_handle", "shade_plot_handle", "visual_style_handle", "sun_handle"},
+              "VPORT table entries are reached by no loading command and by no register_resources"),
+}
+# name attributes that are mapped but whose registration is not a statement of register_resources, with the reason
+NAME_EXCEPTIONS = {
+    "*": ({"@xdata"}, "OBSERVATION (not fixed): a layer named only by an XDATA 1003 tag is mapped by name but not registered, so it is "
+                      "transferred only if something else uses it"),
+    "DIMENSION": ({"geometry"}, "registered under a condition (block_records.has_entry): an unbound DIMENSION has no geometry block"),
+    "ARC_DIMENSION": ({"geometry"}, "as DIMENSION"), "LARGE_RADIAL_DIMENSION": ({"geometry"}, "as DIMENSION"),
+    "BLOCK": ({"name"}, "the BLOCK entity is registered by its BLOCK_RECORD (add_entity(self.block, block_key)); the name map entry is made "
+                        "by add_block_record_entry for that record"),
+    "MLINE": ({"style_name"}, "set from the transferred MLINESTYLE object (copyref), registered by handle (style_handle)"),
+}
+
+
+def regenerate_overrides(ctx):
+    import ast as _ast
+    from translate import overrides_c17 as ov
+    from ezdxf.entities import factory
+    from ezdxf.lldxf import const
+    import glob as _glob
+
+    repo_src = os.path.dirname(os.path.dirname(os.path.dirname(__import__("ezdxf").__file__)))   # .../repo
+    files = sorted("src/ezdxf/entities/" + os.path.basename(p) for p in _glob.glob(os.path.join(repo_src, "src/ezdxf/entities/*.py")))
+    tab = ov.extract(ctx.src, lambda: files)
+    defs = tab["defs"]
+    # every override hands over to its base class first (the chains below are in execution order only then)
+    for (m, c), d in defs.items():
+        for meth, info in d.items():
+            if info["calls_super"] and not info["super_first"]:
+                raise ValueError(f"{c}.{meth}: super().{meth}() is not the first statement: revisit the chain order of the override table")
+    attr_ids: dict[str, int] = {}
+
+    def aid(name: str) -> int:
+        return attr_ids.setdefault(name, len(attr_ids))
+
+    rows, notes = [], []
+    for typ, cls in sorted(factory.ENTITY_CLASSES.items()):
+        attrs = cls.DXFATTRIBS._attribs
+        try:
+            cls.new(handle="ABC", dxfattribs={}).copy()
+            copyable = True
+        except const.DXFError:
+            copyable = False          # DXFTagStorage and friends: CopyMachine records a copy error, nothing is transferred
+        except Exception:  # noqa: needs more attributes than the probe supplies
+            copyable = True
+        ptr = sorted(n for n, a in attrs.items() if n not in ("handle", "owner") and (is_ptr(a.code) or is_arbitrary(a.code)))
+        names = {}
+        for n, a in attrs.items():
+            k = NAME_ATTRS.get((n, a.code)) or NAME_ATTRS_BY_TYPE.get(typ, {}).get(n)
+            if k:
+                names[n] = k
+        mchain = ov.chain(cls, defs, "map_resources")
+        rchain = ov.chain(cls, defs, "register_resources")
+        maps, regs = [], []
+        writes_source = second = False
+        for k, d in mchain:
+            for e in d["events"]:
+                if e["kind"] == "map":
+                    maps.append((e["attr"], e["via"], e["reads"] != "clone", e.get("cond", (0, 0))))
+                elif e["kind"] == "write_self":
+                    writes_source = True
+                    notes.append(f"{k}.map_resources writes to self: {e['text']}")
+                elif e["kind"] == "second_mapping":
+                    second = True
+        for k, d in rchain:
+            for e in d["events"]:
+                if e["kind"] == "reg":
+                    regs.append((e["attr"], e["via"]))
+        pex = sorted(PTR_EXCEPTIONS.get(typ, (set(), ""))[0] & set(ptr))
+        nex = sorted((NAME_EXCEPTIONS.get(typ, (set(), ""))[0] | NAME_EXCEPTIONS["*"][0]))
+        rows.append((typ, cls.__name__, copyable, ptr, names, maps, regs, writes_source, second, pex, nex, [k for k, _ in mchain]))
+    # helper classes that are mapped through delegation (not registered entity types): in-place maps of MLEADER context data, embedded MTEXT
+    helpers = []
+    for (m, c), d in sorted(defs.items()):
+        if any(c == r[1] or c in r[11] for r in rows):
+            continue
+        mev = [(e["attr"], e["via"], e["reads"] != "clone", e.get("cond", (0, 0))) for e in d.get("map_resources", {}).get("events", []) + d.get("map_resources_r12", {}).get("events", [])
+               if e["kind"] == "map"]
+        rev = [(e["attr"], e["via"]) for e in d.get("register_resources", {}).get("events", []) + d.get("register_resources_r12", {}).get("events", [])
+               if e["kind"] == "reg"]
+        ws = any(e["kind"] == "write_self" for mm in d.values() for e in mm["events"])
+        helpers.append((c, mev, rev, ws))
+
+    def lean_row(r):
+        typ, cname, copyable, ptr, names, maps, regs, ws, second, pex, nex, mro = r
+        return ("(" + ", ".join([
+            f'"{typ}"', str(copyable).lower(),
+            "[" + ", ".join(str(aid(a)) for a in ptr) + "]",
+            "[" + ", ".join(f"({aid(a)}, {VIA_CODE[k]})" for a, k in sorted(names.items())) + "]",
+            "[" + ", ".join(f"({aid(a)}, {VIA_CODE[v]}, {str(rs).lower()}, {c[0]}, {c[1]})" for a, v, rs, c in maps) + "]",
+            "[" + ", ".join(f"({aid(a)}, {VIA_CODE[k]})" for a, k in regs) + "]",
+            str(ws).lower(), str(second).lower(),
+            "[" + ", ".join(str(aid(a)) for a in pex) + "]",
+            "[" + ", ".join(str(aid(a)) for a in nex) + "]"]) + ")")
+
+    body = ",\n  ".join(lean_row(r) for r in rows)
+    hbody = ",\n  ".join(f'("{c}", [' + ", ".join(f"({aid(a)}, {VIA_CODE[v]}, {str(rs).lower()}, {cc[0]}, {cc[1]})" for a, v, rs, cc in mev) + "], ["
+                         + ", ".join(f"({aid(a)}, {VIA_CODE[k]})" for a, k in rev) + f"], {str(ws).lower()})" for c, mev, rev, ws in helpers)
+    gates = tab["gates"]
+
+    def gate(cname, meth):
+        g = gates.get((cname, meth))
+        if g is None:
+            raise ValueError(f"{cname}.{meth}: the call of the R12 (name based) override branch was not found: revisit the gate theorems")
+        return g["lean"]
+
+    # the branch `register_override_handles` / `register_resources_r12` is an if/else: gate of the r12 branch only
+    names_tbl = ", ".join(f'"{n}"' for n, _ in sorted(attr_ids.items(), key=lambda kv: kv[1]))
+    doc_ex = "\n".join(f"    {t}: {sorted(v[0])} -- {v[1]}" for t, v in sorted(PTR_EXCEPTIONS.items()))
+    doc_nex = "\n".join(f"    {t}: {sorted(v[0])} -- {v[1]}" for t, v in sorted(NAME_EXCEPTIONS.items()))
+    text = f"""
+namespace EzdxfVerif.Gen.XrefOverrides
+
+/-- names of the attribute ids used below (index = id); names starting with '@' are fields of the entity that are not DXF attributes -/
+def attrNames : List String := [{names_tbl}]
+
+/-- via codes: {", ".join(f"{v}={k}" for k, v in VIA_CODE.items())};
+    condition codes (guards of the statement, classified by the walker): 0 always, 1 the SOURCE entity has the attribute,
+    2 it has not, 3 the attribute is set (present and not null), 4 it is not set, 5 / 6 the condition with the given id (a test the
+    walker cannot decide from the source attributes) holds / does not hold, 7 the CLONE does not have the attribute (any more) -/
+def viaNames : List String := [{", ".join(f'"{k}"' for k, _ in sorted(VIA_CODE.items(), key=lambda kv: kv[1]))}]
+
+/-- one row per entity type registered in ezdxf.entities.factory.ENTITY_CLASSES ({len(rows)} types), extracted from the AST of every
+    `register_resources` / `map_resources` override along the MRO of the live class (base first) and from the live DXFATTRIBS:
+    (dxftype, copyable, declared handle attributes, declared resource-name attributes (attr, kind),
+     map events (attr written on the clone, via, value read from the SOURCE entity, condition code, condition id), register events (attr, kind),
+     a map_resources of the chain assigns to `self`, the chain calls mapping.map_resources_of_copy,
+     documented exceptions for handle attributes, documented exceptions for name attributes)
+
+    exceptions for handle attributes (reason):
+{doc_ex}
+    exceptions for name attributes (reason):
+{doc_nex} -/
+def rows : List (String × Bool × List Nat × List (Nat × Nat) × List (Nat × Nat × Bool × Nat × Nat) × List (Nat × Nat) × Bool × Bool × List Nat × List Nat) := [
+  {body}]
+
+/-- classes that are mapped by delegation (data objects of MULTILEADER, embedded MTEXT of ATTRIB/ATTDEF, DIMSTYLE overrides of R12):
+    (class, map events, register events, assigns to a SOURCE object) -/
+def helpers : List (String × List (Nat × Nat × Bool × Nat × Nat) × List (Nat × Nat) × Bool) := [
+  {hbody}]
+
+/-- DXF versions as ordinals: {", ".join(f"{k}={v}" for k, v in ov.VERSION_ORD.items())}.
+    `true` = the name based (R12) mapping / registration of the DIMSTYLE-override resources is performed; translated from the
+    `if` tests in front of `map_resources_r12` / `register_resources_r12` (data conditions such as "has no overrides" left out) -/
+def dimensionMapsOverrideNames (sver tver : Nat) : Bool := {gate("Dimension", "map_resources")}
+def dimensionRegistersOverrideNames (sver tver : Nat) : Bool := {gate("Dimension", "register_resources")}
+def leaderMapsOverrideNames (sver tver : Nat) : Bool := {gate("Leader", "map_resources")}
+def leaderRegistersOverrideNames (sver tver : Nat) : Bool := {gate("Leader", "register_resources")}
+
+end EzdxfVerif.Gen.XrefOverrides
+"""
+    ctx.write_gen("XrefOverrides", text, files)
+    for n in notes:
+        ctx.note("override table: " + n)
+    reads_clone = sorted({f"{k}.{e['attr']}" for (m, k), dd in defs.items() for meth, info in dd.items() if meth.startswith("map_resources")
+                          for e in info["events"] if e["kind"] == "map" and e["reads"] == "clone" and e["via"] in ("layer", "linetype", "textstyle", "dimstyle", "block")})
+    ctx.note("override table: name attributes mapped from the CLONE's value (correct only because every copy is visited once): " + ", ".join(reads_clone))
 
 
 def probe_fixes():
@@ -235,7 +438,13 @@ def probe_fixes():
 # ================================================================== generators
 FEATURES = ["layers", "blocks", "nested", "attribs", "xdata", "xdict", "reactors", "group", "dim", "hatch", "image",
             "underlay", "material", "mline", "mleader", "leader", "polyline", "text", "complex_ltype", "paperspace",
-            "case_variant", "dimblk", "layer_material", "insert_in_xdata", "tolerance", "shape", "xdata_into_block", "adsk_layer"]
+            "case_variant", "dimblk", "layer_material", "insert_in_xdata", "tolerance", "shape", "xdata_into_block", "adsk_layer",
+            # session 3: name chains (a source that already holds "$0$NAME" / "<xref>$0$NAME" twins), handles / xdict / reactors /
+            # draw order inside block content, soft-owner dictionaries, dictionary with default, 3DSOLID history, viewport frozen layers
+            "chain", "blk_refs", "softdict", "sortents", "dictdflt", "solid3d", "vp_frozen"]
+# features that a DXF R12 source document supports
+R12_FEATURES = ["layers", "blocks", "nested", "attribs", "xdata", "dim", "dimblk", "case_variant", "paperspace", "insert_in_xdata",
+                "xdata_into_block", "adsk_layer", "reactors", "chain", "blk_refs"]
 
 
 def pick_features(rng, k=None):
@@ -243,13 +452,16 @@ def pick_features(rng, k=None):
     return sorted(rng.sample(FEATURES, k))
 
 
-def build_source(version: str, feats, rng, filename: str | None = None):
-    """a source document; every user entity has a handle >= SRC_BASE"""
+def build_source(version: str, feats, rng, filename: str | None = None, overlap: bool = False):
+    """a source document; every user entity has a handle >= SRC_BASE (overlap=True: the handles continue where ezdxf.new()
+    stopped, so that source and target handles come from the same range and a handle that is translated twice, or not at
+    all, resolves to an unrelated object instead of to nothing)"""
     import ezdxf
     from ezdxf.math import Vec2
 
     doc = ezdxf.new(version)
-    doc.entitydb.handles.reset("%X" % SRC_BASE)
+    if not overlap:
+        doc.entitydb.handles.reset("%X" % SRC_BASE)
     if filename:
         doc.filename = filename
     msp = doc.modelspace()
@@ -258,6 +470,14 @@ def build_source(version: str, feats, rng, filename: str | None = None):
     doc.linetypes.add("DOTX", pattern=[0.2, 0.0, -0.2])
     doc.styles.add("TS1", font="arial.ttf")
     doc.styles.add("TS2", font="txt.shx")
+    # name chains: the source already holds names of the form the renaming policies produce (it is itself the result of an
+    # earlier transfer); "A" -> "$0$A" and "$0$A" -> "$0$$0$A" must both be applied exactly once
+    chain_pre = []
+    if "chain" in f:
+        chain_pre = ["$0$"] + (["xr$0$"] if filename else [])
+        for pre in chain_pre:
+            doc.linetypes.add(pre + "DASHX", pattern=[0.3, 0.2, -0.1])
+            doc.styles.add(pre + "TS1", font="isocp.shx")
     if "complex_ltype" in f:
         doc.linetypes.add("GASX", pattern='A,.5,-.2,["GAS",TS2,S=.1,U=0.0,X=-0.1,Y=-.05],-.25', length=0.95)
     if "shape" in f:
@@ -270,10 +490,12 @@ def build_source(version: str, feats, rng, filename: str | None = None):
         doc.layers.add("L1", linetype="DASHX", color=3)
         l2 = doc.layers.add("L2", linetype="Continuous", color=4)
         doc.layers.add("L3", linetype="DOTX" if "complex_ltype" not in f else "GASX", color=5)
+        for pre in chain_pre:
+            doc.layers.add(pre + "L1", linetype=pre + "DASHX", color=6)
         if "layer_material" in f and mat is not None:
             l2.dxf.material_handle = mat.dxf.handle
-    lay = lambda: rng.choice(["0", "L1", "L2", "L3"])
-    ltp = lambda: rng.choice(["BYLAYER", "DASHX", "DOTX", "Continuous", "ByBlock"])
+    lay = lambda: rng.choice(["0", "L1", "L2", "L3"] + [pre + "L1" for pre in chain_pre])
+    ltp = lambda: rng.choice(["BYLAYER", "DASHX", "DOTX", "Continuous", "ByBlock"] + [pre + "DASHX" for pre in chain_pre])
     if "case_variant" in f:
         lay = lambda: rng.choice(["0", "l1", "L2", "l3"])
         ltp = lambda: rng.choice(["ByLayer", "dashx", "DOTX", "CONTINUOUS"])
@@ -289,12 +511,20 @@ def build_source(version: str, feats, rng, filename: str | None = None):
     msp.add_point((3, 4, 5), dxfattribs=gfx())
     if mat is not None and "material" in f:
         line.dxf.material_handle = mat.dxf.handle
+    if "solid3d" in f and version in ("R2007", "R2010"):   # text (SAT) ACIS data; R2013+ stores binary data
+        sol = msp.add_3dsolid(dxfattribs=gfx())
+        sol.sat = ["400 0 1 0", "End-of-ACIS-data"]
+        hist = doc.objects.add_placeholder(owner=doc.rootdict.dxf.handle)   # stands for the history object; never loaded
+        doc.rootdict.add("VHISTORY", hist)
+        sol.dxf.history_handle = hist.dxf.handle
     if "adsk_layer" in f:
         doc.layers.add("*ADSK_VERIF")   # Autodesk special layer (leading asterisk)
         msp.add_circle((7, 7), 0.5, dxfattribs={"layer": "*ADSK_VERIF"})
     if "text" in f:
         msp.add_text("abc", dxfattribs={**gfx(), "style": "TS1" if "case_variant" not in f else "ts1"})
         msp.add_mtext("x\\Py", dxfattribs={**gfx(), "style": "TS2"})
+        for pre in chain_pre:
+            msp.add_text("chained", dxfattribs={**gfx(), "style": pre + "TS1"})
     if "polyline" in f:
         msp.add_polyline3d([(0, 0, 0), (1, 0, 1), (1, 1, 2)], dxfattribs=gfx())
         msp.add_lwpolyline([(0, 0), (2, 0), (2, 2)], dxfattribs=gfx())
@@ -303,8 +533,32 @@ def build_source(version: str, feats, rng, filename: str | None = None):
         ba = doc.blocks.new("B_A")
         ba.add_line((0, 0), (1, 0), dxfattribs=gfx())
         ba.add_text("t", dxfattribs={"style": "TS1", "layer": "L2"})
+        if rng.random() < 0.5:      # the BLOCK / ENDBLK entities have a layer of their own
+            ba.block.dxf.layer = lay()
+            ba.endblk.dxf.layer = lay()
         if "attribs" in f:
             ba.add_attdef("TAG1", (0, 1), dxfattribs={"style": "TS2", "layer": "L1"})
+        if "blk_refs" in f:
+            # references between the entities of ONE block definition and out of it: XDATA handles, XRECORD pointers in an
+            # extension dictionary, reactors (block content is reached through the BLOCK_RECORD copy and through its own block of copies)
+            if "VAPPB" not in doc.appids:
+                doc.appids.add("VAPPB")
+            bl, bc = ba[0], ba.add_circle((1, 1), 0.5, dxfattribs=gfx())
+            bl.set_xdata("VAPPB", [(1005, bc.dxf.handle), (1005, circle.dxf.handle), (1003, "L1"), (1005, bl.dxf.handle)])
+            if version != "R12":
+                bxd = bl.new_extension_dict()
+                bxd.add_xrecord("BREC").reset([(330, bc.dxf.handle), (340, bl.dxf.handle), (331, line.dxf.handle)])
+            bc.append_reactor_handle(bl.dxf.handle)
+        if "sortents" in f and version != "R12":
+            hs = [e.dxf.handle for e in ba]
+            order = hs[:]
+            rng.shuffle(order)
+            ba.set_redraw_order(zip(order, sorted(hs, key=lambda h: int(h, 16))))
+        for pre in chain_pre:
+            bch = doc.blocks.new(pre + "B_A")
+            bch.add_circle((0, 0), 2, dxfattribs=gfx())
+            bch.add_text("c", dxfattribs={"style": pre + "TS1", "layer": pre + "L1"})
+            msp.add_blockref(pre + "B_A", (6, 6), dxfattribs=gfx())
         ins = msp.add_blockref("B_A" if "case_variant" not in f else "b_a", (5, 5), dxfattribs=gfx())
         if "attribs" in f:
             ins.add_attrib("TAG1", "v1", (0, 1), dxfattribs={"style": "TS2", "layer": "L3"})
@@ -317,6 +571,9 @@ def build_source(version: str, feats, rng, filename: str | None = None):
             bc = doc.blocks.new("B_C")
             bc.add_blockref("B_B", (2, 2))
             bc.add_blockref("B_A", (3, 3))
+            for pre in chain_pre:
+                bc.add_blockref(pre + "B_A", (4, 4))
+                bb.add_text("n", dxfattribs={"style": pre + "TS1", "layer": pre + "L1", "linetype": pre + "DASHX"})
             msp.add_blockref("B_C", (7, 7), dxfattribs=gfx())
             doc.blocks.new("B_UNUSED").add_line((0, 0), (1, 1))
     if "dim" in f:
@@ -329,8 +586,12 @@ def build_source(version: str, feats, rng, filename: str | None = None):
             ds.dxf.dimblk = "MYARROW"
             if version != "R2000" and version != "R2004":
                 ds.dxf.dimltype = "DASHX"
-        d = msp.add_linear_dim(base=(0, 2), p1=(0, 0), p2=(3, 0), dimstyle="DS1", dxfattribs=gfx(),
-                               override={"dimtxsty": "TS2", "dimclrd": 2} if rng.random() < 0.5 else None)
+        # DIMSTYLE overrides in the XDATA of the DIMENSION: by handle (R2000+) or by name (R12)
+        ovr = rng.choice([None, {"dimtxsty": "TS2", "dimclrd": 2}, {"dimblk": "DOT"}, {"dimblk1": "OPEN", "dimblk2": "DOT", "dimsah": 1}])
+        if "dimblk" in f:
+            ovr = rng.choice([ovr, {"dimblk": "MYARROW"}, {"dimblk1": "MYARROW", "dimblk2": "DOT", "dimsah": 1},
+                              {"dimblk": "MYARROW", "dimtxsty": "TS2"}])
+        d = msp.add_linear_dim(base=(0, 2), p1=(0, 0), p2=(3, 0), dimstyle="DS1", dxfattribs=gfx(), override=ovr)
         d.render()
         ents.append(d.dimension)
         if rng.random() < 0.5:
@@ -360,8 +621,8 @@ def build_source(version: str, feats, rng, filename: str | None = None):
         msp.add_underlay(udef, (0, 0), dxfattribs=gfx())
     if "mline" in f:
         ms = doc.mline_styles.new("MLS1")
-        ms.elements.append(0.5, 1)
-        ms.elements.append(-0.5, 2)
+        ms.elements.append(0.5, 1, rng.choice(["BYLAYER", "DASHX", "DOTX"]))
+        ms.elements.append(-0.5, 2, rng.choice(["BYLAYER", "DASHX"]))
         msp.add_mline([(0, 0), (3, 0), (3, 3)], dxfattribs={**gfx(), "style_name": "MLS1"})
         msp.add_mline([(0, 1), (3, 1)])
     if "mleader" in f:
@@ -397,6 +658,17 @@ def build_source(version: str, feats, rng, filename: str | None = None):
         xd.add_dictionary_var("VVAR", "value")
         sub = xd.add_dictionary("VSUB", hard_owned=True)
         sub.add_xrecord("DEEP").reset([(330, line.dxf.handle)])
+        if "softdict" in f:
+            # a soft-owner dictionary; its entries are owned by it (what doc.audit() accepts); entries that refer to objects of
+            # OTHER owners are covered by the fixed case "softdict"
+            soft = xd.add_dictionary("VSOFT", hard_owned=False)
+            soft.add_xrecord("SX").reset([(330, circle.dxf.handle), (1, "soft")])
+        if "dictdflt" in f:
+            dd = doc.objects.add_dictionary_with_default(owner=xd.dictionary.dxf.handle, default="0", hard_owned=True)
+            xd.dictionary.add("VDFLT", dd)
+            dflt = doc.objects.add_placeholder(owner=dd.dxf.handle)
+            dd.add("Normal", dflt)
+            dd.set_default(dflt)
     if "reactors" in f:
         line.append_reactor_handle(circle.dxf.handle)
         circle.append_reactor_handle(not_loaded.dxf.handle)
@@ -407,7 +679,9 @@ def build_source(version: str, feats, rng, filename: str | None = None):
     if "paperspace" in f:
         psp = doc.layouts.new("Sheet A")
         psp.add_line((0, 0), (5, 5), dxfattribs=gfx())
-        psp.add_viewport(center=(5, 5), size=(4, 4), view_center_point=(0, 0), view_height=10)
+        vp = psp.add_viewport(center=(5, 5), size=(4, 4), view_center_point=(0, 0), view_height=10)
+        if "vp_frozen" in f and version != "R12":
+            vp.frozen_layers = ["L2", "L3"]     # L2/L3 are not necessarily used by any loaded entity
         if "blocks" in f:
             psp.add_blockref("B_A", (1, 1))
         psp.add_text("sheet", dxfattribs={"style": "TS2", "layer": "L3"})
@@ -455,7 +729,7 @@ def build_target(version: str, clash, rng, xref_name: str = ""):
         doc.appids.add("VAPP")
     if "layout" in c:
         doc.layouts.new("Sheet A")
-    if "imagedef" in c:
+    if "imagedef" in c and version != "R12":
         idef = doc.add_image_def("other.png", (10, 10))
         msp.add_image(idef, (0, 0), (1, 1))
     if "dimblock" in c:
@@ -480,6 +754,7 @@ def build_target(version: str, clash, rng, xref_name: str = ""):
 
 # ================================================================== snapshots (through the harness-owned parser)
 COLLECTIONS = {"MATERIAL": 1, "MLINESTYLE": 2, "MLEADERSTYLE": 3}   # object type -> group code of the name
+_STAMP = __import__("re").compile(r" @ \d{4}-\d\d-\d\dT\d\d:")
 VOLATILE_HEADER = {"$VERSIONGUID", "$FINGERPRINTGUID", "$TDUPDATE", "$TDUUPDATE", "$TDCREATE", "$TDUCREATE", "$HANDSEED"}
 
 
@@ -533,6 +808,9 @@ class Snap:
                 h = dxfparse.rec_handle(r)
                 if h is None:
                     continue
+                if t == "BLOCK":
+                    # DXF R12: ezdxf stores its meta data (version @ time stamp) in the XDATA of the *Model_Space BLOCK
+                    r = [tg for tg in r if not (tg[0] == 1000 and _STAMP.search(str(tg[1])))]
                 self.recs[h] = r
                 self.where[h] = name if name != "TABLES" else f"TABLES/{tname}"
                 self.order.append(h)
@@ -882,6 +1160,12 @@ class Analysis:
             return False
 
         self.src_names = src_names
+        self.copy_names = {}
+        for T, names in src_names.items():
+            for _n, sh in names.items():
+                th = sig.get(sh)
+                if th is not None and th in ta.recs and th not in old:
+                    self.copy_names.setdefault(T, {})[sh] = ta.name_of(th).lower()
         self.layout_names_before = {str(v).lower() for r in (tb.recs.values() if tb else []) if dxfparse.rec_type(r) == "LAYOUT" for c, v in r if c == 1}
 
         while work:
@@ -978,7 +1262,86 @@ class Analysis:
                     continue  # leak, reported by the whole-file scan
                 self.report(f"wrong-pointer/{typ}/{c}", f"{typ} #{s}->{t}: pointer set ({c}, {list(svs)}) became {list(tvs)}; {tv} is not the copy of any of them")
 
+    # DIMSTYLE overrides in the XDATA (ACAD / DSTYLE) of DIMENSION, LEADER, TOLERANCE: a resource is named (DXF R12: group
+    # codes 5 6 7 + (1000, arrow name)) or referenced by handle (R2000+: 340..347 + (1005, handle)).  Both forms are brought to
+    # (1070, handle-form code) (-1000, name of the table entry) so that an R12 source can be compared with any target.
+    DSTYLE_NAME_CODES = {5: 342, 6: 343, 7: 344}
+    DSTYLE_HANDLE_CODES = {340: "STYLE", 341: "BLOCK_RECORD", 342: "BLOCK_RECORD", 343: "BLOCK_RECORD", 344: "BLOCK_RECORD",
+                           345: "LTYPE", 346: "LTYPE", 347: "LTYPE"}
+
+    @classmethod
+    def canon_dstyle(cls, rec, snap):
+        """-> (record without the entries of the DSTYLE list, {canonical DIMSTYLE code: (value code, value)})"""
+        xs = xdata_start(rec)
+        out = list(rec[:xs])
+        entries = {}
+        i, n = xs, len(rec)
+        blocks = None
+        in_acad = in_ds = False
+        while i < n:
+            c, v = rec[i]
+            if c == 1001:
+                in_acad, in_ds = (str(v).upper() == "ACAD"), False
+            elif in_acad and c == 1000 and str(v) == "DSTYLE" and i + 1 < n and rec[i + 1] == (1002, "{"):
+                in_ds = True
+                out += [rec[i], rec[i + 1]]
+                i += 2
+                continue
+            elif in_ds and c == 1002 and v == "}":
+                in_ds = False
+            elif in_ds and c == 1070 and i + 1 < n:
+                try:
+                    code = int(v)
+                except (TypeError, ValueError):
+                    code = -1
+                vc, vv = rec[i + 1]
+                if code in cls.DSTYLE_NAME_CODES and vc == 1000:
+                    if blocks is None:
+                        blocks = snap.names("BLOCK_RECORD")
+                    name = str(vv)
+                    # arrow name -> block name: AutoCAD's own arrows are stored without the leading underscore
+                    if name.lower() not in blocks and ("_" + name).lower() in blocks:
+                        name = "_" + name
+                    entries[cls.DSTYLE_NAME_CODES[code]] = (-1000, name)
+                elif code in cls.DSTYLE_HANDLE_CODES and vc == 1005:
+                    h = norm(vv)
+                    entries[code] = (-1000, snap.name_of(h) if h in snap.recs else ("" if h == "0" else f"<unresolved #{h}>"))
+                else:
+                    entries[code] = (vc, vv)
+                i += 2
+                continue
+            out.append((c, v))
+            i += 1
+        return out, entries
+
+    def compare_dstyle(self, s, t, typ, es, et, name_ok, ta):
+        """the DIMSTYLE overrides of a transferred DIMENSION / LEADER: every override of the source is an override of the copy;
+        a resource override names the transferred copy of the source's resource.  The copy may carry MORE overrides (the code
+        writes the mapped value of the DIMSTYLE itself as an override): such an entry must name an existing target resource."""
+        for code, (vc, sv) in es.items():
+            if code not in et:
+                self.report(f"override-dropped/{typ}/{code}", f"{typ} #{s}->{t}: DIMSTYLE override {code} = {sv!r} is missing in the copy")
+                continue
+            tvc, tv = et[code]
+            if vc == -1000:
+                if tvc != -1000 or not name_ok(str(sv), str(tv)):
+                    self.report(f"override-resource/{typ}", f"{typ} #{s}->{t}: the resource {sv!r} of DIMSTYLE override {code} became {tv!r}, "
+                                f"which is not the transferred copy of {sv!r}")
+            elif sv != tv:
+                self.report(f"override-changed/{typ}/{code}", f"{typ} #{s}->{t}: DIMSTYLE override {code} = {sv!r} became {tv!r}")
+        for code, (tvc, tv) in et.items():
+            if code in es:
+                continue
+            T = self.DSTYLE_HANDLE_CODES.get(code)
+            if tvc == -1000 and T is not None and (tv == "" or str(tv).lower() in ta.names(T)):
+                self.stat(f"override-added/{typ}/{code}")
+                continue
+            self.report(f"override-added/{typ}/{code}", f"{typ} #{s}->{t}: the copy has the additional DIMSTYLE override {code} = {tv!r}")
+
     def compare(self, s, t, typ, rs_, rt_, sig, sb, ta, name_ok):
+        if typ in ("DIMENSION", "LEADER", "TOLERANCE", "ARC_DIMENSION", "LARGE_RADIAL_DIMENSION"):
+            (rs_, es), (rt_, et) = self.canon_dstyle(rs_, sb), self.canon_dstyle(rt_, ta)
+            self.compare_dstyle(s, t, typ, es, et, name_ok, ta)
         rs_, rt_ = self.collapse(rs_), self.collapse(rt_)
         sc, tc = [c for c, v in rs_], [c for c, v in rt_]
         xs, xt = xdata_start(rs_), xdata_start(rt_)
@@ -999,8 +1362,19 @@ class Analysis:
                     if (not inx and (is_ptr(c) and c != 1005)) or (inx and c == 1005):
                         svn, tvn = norm(sv), norm(tv)
                         if tvn == "0":
-                            if svn != "0" and svn in sig and sig[svn] in ta.recs:
-                                self.stat(f"nulled-although-copied/{typ}/{c}")
+                            if svn != "0" and svn in sig and sig[svn] in ta.recs and sig[svn] not in self.old:
+                                own = dxfparse.base_refs(sb.recs[svn])[0] if svn in sb.recs else None
+                                par = next((p for p, cs in sb.children.items() if svn in cs), None)
+                                if par is not None:
+                                    own = dxfparse.base_refs(sb.recs[par])[0]
+                                if (own in sig and sig[own] in self.old and own in sb.recs and dxfparse.rec_type(sb.recs[own]) == "BLOCK_RECORD"):
+                                    # documented design of add_block_record_entry: the target's block definition is kept, pointers
+                                    # to the copied content are null even when a loading command placed that content into a layout
+                                    self.stat(f"nulled-pointer-to-content-of-kept-block/{typ}/{c}")
+                                    continue
+                                # the referent WAS copied and its copy is in the target file, yet the pointer is null
+                                self.report(f"nulled-although-copied/{typ}/{c}", f"{typ} #{s}->{t}: pointer ({c}, {sv}) became 0 although its "
+                                            f"referent was transferred as #{sig[svn]}")
                             continue
                         if svn in sig and sig[svn] == tvn:
                             continue
@@ -1012,7 +1386,8 @@ class Analysis:
                             continue  # deliberately reset to the target's own default object by the code
                         if svn in sb.recs and int(svn, 16) >= SRC_BASE and tvn == svn:
                             continue  # reported as leak by the whole-file scan
-                        if tvn == svn and svn in sb.recs and tvn in ta.recs and dxfparse.rec_type(sb.recs[svn]) == dxfparse.rec_type(ta.recs[tvn]):
+                        if (tvn == svn and svn in sb.recs and tvn in ta.recs and dxfparse.rec_type(sb.recs[svn]) == dxfparse.rec_type(ta.recs[tvn])
+                                and not getattr(self, "overlap", False)):
                             self.report(f"untranslated/{typ}/{c}", f"{typ} #{s}->{t}: pointer ({c}, {sv}) copied verbatim; it resolves in the target only "
                                         f"because both documents use the same handle for a {dxfparse.rec_type(sb.recs[svn])}")
                             continue
@@ -1045,6 +1420,9 @@ class Analysis:
                     if is_ptr(c) or is_arbitrary(c) or c == 102:
                         self.stat(f"dropped-pointer/{typ}/{c}")
                         continue
+                    if typ == "DICTIONARY" and c == 3 and not any(cc == 280 and str(vv).strip() == "1" for cc, vv in rs_):
+                        self.stat("dropped-entry-of-soft-owner-dictionary")   # the entry (not owned => not registered) became nothing
+                        continue
                     self.report(f"attr-dropped/{typ}/{c}", f"{typ} #{s}->{t}: source tag ({c}, {sv!r}) has no counterpart")
                 ss = [rs_[i] for i in range(i1, i2) if is_ptr(rs_[i][0])]
                 for j in range(j1, j2):
@@ -1066,6 +1444,9 @@ class Analysis:
         before = names_before.get(T, {})
         tname = ta.name_of(t)
         existing = before.get(low)
+        # a name taken by the copy of ANOTHER source entry of this transfer is a conflict as well ("A" -> "$0$A" makes the
+        # source's own "$0$A" clash)
+        taken_by_other = any(n == low for sh, n in self.copy_names.get(T, {}).items() if sh != s)
         special = ((T == "LAYER" and (low in SPECIAL_LAYERS or low.startswith("*adsk"))) or (T == "LTYPE" and low in SPECIAL_LTYPES)
                    or (T == "MATERIAL" and low in ("global", "bylayer", "byblock")) or (T in ("MLINESTYLE", "MLEADERSTYLE") and low == "standard"))
         key = f"policy/{policy}/{T}"
@@ -1087,7 +1468,7 @@ class Analysis:
             elif not is_new or tname != name:
                 self.report(key + "/not-added", f"{T} '{name}' (no clash) became #{t} '{tname}'")
             return
-        rename = policy == "XREF_PREFIX" or existing is not None
+        rename = policy == "XREF_PREFIX" or existing is not None or (taken_by_other and tname != name)
         pre = xref if policy == "XREF_PREFIX" else ""
         if not rename:
             if not is_new or tname != name:
@@ -1125,10 +1506,20 @@ class Analysis:
                     if typ == "VIEWPORT" and any(c == 69 and str(v).strip() == "1" for c, v in r):
                         continue  # documented: a loaded main viewport is replaced by the target's own
                     self.report(f"not-loaded/{typ}", f"source {typ} #{hs} was to be loaded but has no copy in the target layout")
-            got = [h for h in got if h in image]
             want = [w for w in want if w in ta.recs]
-            if got != want:
-                self.report("order/target-layout", f"target layout content {got[:8]}... is not the image of the loaded entities {want[:8]}...")
+            got_image = [h for h in got if h in image]
+            if got_image != want:
+                # a copy that is already the content of a transferred block definition (or of another layout) is loaded as a
+                # DUPLICATE with a new handle (fix of the shared-copy defect): same type, same tags apart from handles
+                def plain(h):
+                    return [(c, v) for c, v in ta.recs[h] if not (c in (5, 105, 102) or is_ptr(c) or is_arbitrary(c))]
+
+                ok = len(got) == len(want) and all(
+                    g == w or (g not in image and ta.where.get(w) == "BLOCKS" and plain(g) == plain(w)) for g, w in zip(got, want))
+                if ok:
+                    self.stat("loaded-as-duplicate", sum(1 for g, w in zip(got, want) if g != w))
+                else:
+                    self.report("order/target-layout", f"target layout content {got[:8]}... is not the image of the loaded entities {want[:8]}...")
         # every transferred block definition holds the image of the source content, in order
         brs = {dxfparse.base_refs(sb.recs[b])[0]: b for b in sb.block_content}
         brt = {dxfparse.base_refs(ta.recs[b])[0]: b for b in ta.block_content}
@@ -1194,6 +1585,11 @@ class Analysis:
                 self.report(f"resource-missing/{T}/{kind}", f"transferred {typ} #{h} refers to {T} '{v}' which is not in the target")
 
 
+def snap_of(doc):
+    """records of a document; a DXF R12 document is looked at through its R2000 export (owner handles, BLOCK_RECORD table)"""
+    return Snap(doc, as_version=ACADVER["R2000"]) if doc.dxfversion == ACADVER["R12"] else Snap(doc)
+
+
 # ================================================================== one oracle case
 def gen_case(rng, i: int):
     sver = rng.choice(VERSIONS)
@@ -1207,10 +1603,36 @@ def gen_case(rng, i: int):
         feats = sorted(feats + ["blocks"])
     if op == "importer":
         feats = sorted(set(feats) & set(IMPORTER_FEATURES)) or ["blocks"]
-    return {
+    spec = {
         "seed": rng.randrange(1 << 30), "sver": sver, "tver": tver, "op": op, "policy": POLICIES[i % 3] if i < 30 else rng.choice(POLICIES),
         "feats": feats, "clash": sorted(rng.sample(CLASH, rng.randint(0, 7))), "named": rng.random() < 0.5,
     }
+    # session 3 (drawn last so that the cases of earlier sessions keep their inputs):
+    r12 = rng.random() < 0.12
+    spec["overlap"] = rng.random() < 0.3
+    extra = [x for x in ("chain", "blk_refs") if rng.random() < 0.35]
+    if extra and op != "importer":
+        spec["feats"] = sorted(set(feats) | set(extra) | {"blocks"})
+    if "solid3d" in spec["feats"] and not (sver in ("R2007", "R2010") and tver in ("R2007", "R2010")):
+        spec["feats"] = [x for x in spec["feats"] if x != "solid3d"]   # SAT data is exported for R2007 / R2010 only
+    if r12 and op in R12_OPS:
+        # a DXF R12 source (resources of DIMSTYLE overrides are stored by NAME) into any target version
+        spec["sver"] = "R12"
+        spec["tver"] = rng.choice(["R12"] + VERSIONS)
+        fs = (set(spec["feats"]) & set(R12_FEATURES)) | {"dim"}
+        if rng.random() < 0.7:
+            fs |= {"dimblk"}
+        if op == "psp":
+            fs.add("paperspace")
+        if op == "block_into":
+            fs.add("blocks")
+        spec["feats"] = sorted(fs)
+    return spec
+
+
+# operations whose target is a document of the harness (write_block / detach create the target with the version of the source;
+# the record analysis needs the owner handles that only DXF R2000+ files carry)
+R12_OPS = ["msp", "msp_filter", "loader_mix", "block_into", "resources"]
 
 
 def crash_site(e):
@@ -1306,16 +1728,18 @@ def run_case(spec, tmpdir=None):
             fails.append((key, what))
 
     an = Analysis(report)
+    an.overlap = bool(spec.get("overlap"))
     try:
         xname = "xr" if spec["named"] else ""
-        src = build_source(spec["sver"], spec["feats"], rng, filename=os.path.join(tmpdir, "xr.dxf") if spec["named"] else None)
+        src = build_source(spec["sver"], spec["feats"], rng, filename=os.path.join(tmpdir, "xr.dxf") if spec["named"] else None,
+                           overlap=spec.get("overlap", False))
         op, policy = spec["op"], spec["policy"]
         tgt = None
         if op not in ("write_block", "detach_embed"):
             tgt = build_target(spec["tver"], spec["clash"], rng, xname)
         Snap(src)  # warm-up export: export itself may normalise attributes of the source
         sb = Snap(src)
-        tb = Snap(tgt) if tgt is not None else None
+        tb = snap_of(tgt) if tgt is not None else None
         if op == "importer":
             from ezdxf.addons.importer import Importer
 
@@ -1357,7 +1781,7 @@ def run_case(spec, tmpdir=None):
             if norm(k) not in sigma and e_ is not None and e_.is_alive and e_.dxf.owner is not None:
                 sigma[norm(k)] = norm(v)
         sa = Snap(src)
-        ta = Snap(tdoc)
+        ta = snap_of(tdoc)
         if op in ("write_block", "detach_embed"):
             policy = "KEEP"  # detach() uses KEEP, write_block the default policy of Loader (KEEP)
         xref_used = tr.xref_prefix
@@ -1371,7 +1795,7 @@ def run_case(spec, tmpdir=None):
                 tlay = tdoc.paperspace(tl.dxf.name)
                 info["anchors"][sl.block_record_handle] = tlay.block_record_handle
                 info["target_layout"] = tlay
-        sp = Snap(src, as_version=tdoc.dxfversion) if tdoc.dxfversion != src.dxfversion else sa
+        sp = Snap(src, as_version=ta.version) if ta.version != src.dxfversion else sa
         sig = an.pairs(sigma, info, policy, xref_used, sp, tb, ta)
         an.order_and_resources(info, sig, sp, tb, ta, copy_errors={norm(h) for h in tr.copy_errors})
         if tr.copy_errors:
@@ -1739,6 +2163,11 @@ def corr_transfer(ctx, cases):
         spec = gen_case(rng, i)
         spec["op"] = ops[i % len(ops)]
         feats = (set(spec["feats"]) | {"xdata"}) - {"adsk_layer"}   # the layer-name validator is X3's subject
+        if spec["sver"] == "R12":
+            # R12 -> R2000+ converts the name based DIMSTYLE overrides into handle based ones (new XDATA 1005 tags that have no
+            # counterpart in the source): outside the abstract pointer model, subject of the oracle
+            spec["sver"] = "R2000"
+            spec["tver"] = "R2000" if spec["tver"] == "R12" else spec["tver"]
         if spec["op"] == "psp":
             feats.add("paperspace")
         if spec["op"] == "block_into":
@@ -1786,12 +2215,15 @@ def corr_transfer(ctx, cases):
             impl = err
         else:
             out = []
+            copy_handles = {int(c, 16) for c in alloc.values()}
             for s, c in alloc.items():
                 ce = tgt.entitydb.get(c)
                 if ce is None or not ce.is_alive or c in shape:
                     continue
                 k, o, ptrs, b, en, content = abstract_node(ce, tgt.entitydb)
-                out.append(f"{int(c, 16)},{' '.join(map(str, ptrs))},{b},{en},{' '.join(map(str, content))}")
+                # owner, when it is the copy of a block record and no loading command placed this copy into a layout
+                own = o if (o in copy_handles and int(c, 16) not in placed) else 0
+                out.append(f"{int(c, 16)},{' '.join(map(str, ptrs))},{b},{en},{' '.join(map(str, content))},{own}")
             sig2 = ";".join(f"{int(s, 16)}>{int(tr.handle_mapping.get(s, '0'), 16)}" for s in alloc)
             same = all(abstract_node(src.entitydb.get(s), src.entitydb) == tuple(x) for s, x in
                        ((s, abstract_node(src.entitydb.get(s), src.entitydb)) for s in alloc))
@@ -1801,7 +2233,188 @@ def corr_transfer(ctx, cases):
     tmp.cleanup()
 
 
+def corr_overrides(ctx, cases):
+    """X5: the MEANING of the regenerated override table (Model/XrefOv.lean mapAttrs / mapNames over the events the T-ast walker
+    extracted) against the real `map_resources` of every registered, copyable entity type: one entity per case with generated
+    values for every declared handle attribute (absent / "0" / handle of a copied entity / handle that was not copied) and every
+    declared resource-name attribute (absent / name with a map entry, in another letter case / unknown name), a real
+    xref._Transfer with a generated handle mapping and name maps, `entity.map_resources(clone, transfer)`, then the attributes of
+    the clone.  A statement the walker misreads or misses shows up here as a disagreement."""
+    import ezdxf
+    from ezdxf import xref
+    from ezdxf.entities import factory
+    from ezdxf.lldxf import const
+
+    rng = ctx.rng("x5")
+    sdoc, tdoc = ezdxf.new("R2018"), ezdxf.new("R2018")
+    sdoc.entitydb.handles.reset("%X" % SRC_BASE)
+    for n in ("RESL", "$0$A", "Unknown"):     # DXFGraphic.new() insists on a defined linetype
+        sdoc.linetypes.add(n, pattern=[0.2, 0.1, -0.1])
+    for n in ("REST", "$0$A", "Unknown"):     # resources that register_resources looks up by name
+        sdoc.styles.add(n, font="txt.shx")
+    for n in ("RESB", "$0$A", "Unknown"):
+        sdoc.blocks.new(n)
+    targets = [tdoc.rootdict.add_xrecord(f"VT{i}").dxf.handle for i in range(6)]
+    reg = xref._Registry(sdoc, tdoc)
+    kinds = {"layer": ("layer_mapping", 4), "linetype": ("linetype_mapping", 5), "textstyle": ("text_style_mapping", 6),
+             "dimstyle": ("dim_style_mapping", 7), "block": ("block_name_mapping", 8)}
+    types = []
+    for typ, cls in sorted(factory.ENTITY_CLASSES.items()):
+        attrs = cls.DXFATTRIBS._attribs
+        ptr = sorted(n for n, a in attrs.items() if n not in ("handle", "owner") and (is_ptr(a.code) or is_arbitrary(a.code)))
+        names = {}
+        for n, a in attrs.items():
+            k = NAME_ATTRS.get((n, a.code)) or NAME_ATTRS_BY_TYPE.get(typ, {}).get(n)
+            if k:
+                names[n] = k      # all declared name attributes (the model prints them in the order of their names)
+        if ptr or names:
+            types.append((typ, cls, ptr, names))
+    reps = ctx.n(6, 60)
+    for typ, cls, ptr, names in types:
+        for rep in range(reps):
+            src_handles = ["%X" % (SRC_BASE + 0x800 + i) for i in range(5)]
+            sigma = {h: rng.choice(targets) for h in src_handles[:3]}
+            tr = xref._Transfer(registry=reg, copies={}, objects={}, handle_mapping=dict(sigma), copy_errors=set())
+            nmaps = {}
+            for kname, (field, code) in kinds.items():
+                m = {"res" + kname[0]: "x$0$RES" + kname[0].upper(), "$0$a": "$0$$0$A"} if rng.random() < 0.8 else {}
+                getattr(tr, field).update(m)
+                nmaps[code] = m
+            dxfattribs, want_ptr, want_names = {}, {}, {}
+            for a in ptr:
+                v = rng.choice([None, "0"] + src_handles)
+                if v is not None:
+                    dxfattribs[a] = v
+            for a, k in names.items():
+                v = rng.choice([None, "RES" + k[0].upper(), "Res" + k[0], "$0$A", "Unknown"]) if k in kinds else None
+                if v is not None:
+                    dxfattribs[a] = v
+            try:
+                try:
+                    e = cls.new(handle="%X" % (SRC_BASE + 0x7FF), dxfattribs=dxfattribs, doc=sdoc)
+                    clone = e.copy()
+                except AttributeError:
+                    # DIMENSION family: copy() reads the definition points
+                    from ezdxf.lldxf.attributes import XType
+                    pts = {n: (0, 0, 0) for n, a in cls.DXFATTRIBS._attribs.items() if a.xtype in (XType.point3d, XType.any_point, XType.point2d)}
+                    e = cls.new(handle="%X" % (SRC_BASE + 0x7FF), dxfattribs={**pts, **dxfattribs}, doc=sdoc)
+                    clone = e.copy()
+                factory.bind(clone, tdoc)
+            except Exception as ex:  # noqa: the type needs more than attributes to exist / be copied (DIMENSION geometry, ACIS data, ...)
+                ctx.hist("X5 overrides", f"skipped {typ}: cannot build/copy ({type(ex).__name__})")
+                continue
+            # attributes with a default value read as present: the request carries what the SOURCE entity really holds
+            held = {a: e.dxf.get(a) for a in ptr if e.dxf.hasattr(a)}
+            heldn = {a: e.dxf.get(a) for a in names if e.dxf.hasattr(a)}
+            try:
+                e.map_resources(clone, tr)
+            except Exception as ex:  # noqa: needs real definition objects (IMAGE, UNDERLAY), covered by the oracle
+                ctx.hist("X5 overrides", f"skipped {typ}: map_resources needs a complete entity ({type(ex).__name__})")
+                tdoc.entitydb.discard(clone)
+                break
+
+            def hnum(v):
+                try:
+                    return int(str(v), 16)
+                except (TypeError, ValueError):
+                    return 0
+
+            got = []
+            for a in ptr:
+                v = clone.dxf.get(a) if clone.dxf.hasattr(a) else None
+                got.append(f"{a}={hnum(v) if v is not None else 0}")
+            req = (f"ov|{typ}|{';'.join(f'{hnum(k)}>{hnum(v)}' for k, v in sigma.items())}|"
+                   f"{';'.join(f'{a}={hnum(v)}' for a, v in held.items())}")
+            cases.append((req, ";".join(got), bool(held), "T"))
+            if names:
+                # an unguarded statement reads the DXF default of an absent attribute and stores its image: absent == default
+                dflt = {a: cls.DXFATTRIBS._attribs[a].default for a in names}
+                gotn = [f"{a}={cps(clone.dxf.get(a)) if (clone.dxf.hasattr(a) and not (a not in heldn and clone.dxf.get(a) == dflt[a])) else '-'}"
+                        for a in sorted(names)]
+                reqn = (f"on|{typ}|{';'.join(f'{code}:{cps(o)}>{cps(n)}' for code, m in nmaps.items() for o, n in m.items())}|"
+                        f"{';'.join(f'{a}={cps(v)}' for a, v in heldn.items())}")
+                cases.append((reqn, ";".join(gotn), bool(heldn), "84"))     # 84 = "T": a name taken from a transferred object
+            ctx.hist("X5 overrides", typ)
+            try:
+                tdoc.entitydb.discard(clone)
+            except Exception:  # noqa
+                pass
+        # registrations: what `register_resources` hands to the registry for an entity that HAS every declared handle and name attribute
+        for rep in range(max(2, reps // 3)):
+            dxfattribs = {a: rng.choice(["0", "%X" % (SRC_BASE + 0x900 + rng.randint(0, 9))]) for a in ptr}
+            for a, k in names.items():
+                if k in kinds:
+                    dxfattribs[a] = rng.choice(["RES" + k[0].upper(), "Res" + k[0], "$0$A", "Unknown"])
+            try:
+                try:
+                    e = cls.new(handle="%X" % (SRC_BASE + 0x7FE), dxfattribs=dxfattribs, doc=sdoc)
+                except AttributeError:
+                    continue
+                rec = RecordingRegistry(sdoc)
+                e.register_resources(rec)
+            except Exception as ex:  # noqa
+                ctx.hist("X5 overrides", f"skipped {typ}: register_resources needs a complete entity ({type(ex).__name__})")
+                break
+            hv = {a: hnum16(e.dxf.get(a)) for a in ptr if e.dxf.hasattr(a)}
+            nv = {a: e.dxf.get(a) for a in names if e.dxf.hasattr(a) and names[a] in kinds}
+            req = f"or|{typ}|{';'.join(f'{a}={v}' for a, v in hv.items())}|{';'.join(f'{a}={cps(v)}' for a, v in nv.items())}"
+            cases.append((req, ";".join(sorted(rec.items)), True, None))
+            ctx.hist("X5 overrides", "registrations " + typ)
+
+
+def hnum16(v) -> int:
+    try:
+        return int(str(v), 16)
+    except (TypeError, ValueError):
+        return 0
+
+
+class RecordingRegistry:
+    """xref.Registry that records what an entity registers about its DXF attributes: "<kind>:<value>" """
+
+    KIND_OF_TYPE = {"LAYER": 4, "LTYPE": 5, "STYLE": 6, "DIMSTYLE": 7, "BLOCK_RECORD": 8}
+
+    def __init__(self, doc):
+        self.source_doc = doc
+        self.items: list[str] = []
+
+    def _name(self, kind, name):
+        if name is not None:
+            self.items.append(f"{kind}:{cps(str(name).lower())}")
+
+    def add_layer(self, name): self._name(4, name)
+    def add_linetype(self, name): self._name(5, name)
+    def add_text_style(self, name): self._name(6, name)
+    def add_dim_style(self, name): self._name(7, name)
+    def add_block_name(self, name): self._name(8, name)
+    def add_appid(self, name): pass
+    def add_block(self, block_record): pass
+
+    def add_handle(self, handle):
+        if handle is not None and hnum16(handle) != 0:
+            self.items.append(f"0:{hnum16(handle)}")
+
+    def add_entity(self, entity, block_key="0"):
+        k = self.KIND_OF_TYPE.get(entity.dxftype())
+        if k is not None:
+            # registered as an entity that was looked up by the name the attribute holds: report the attribute's spelling is not
+            # possible here, the table key is what both sides can agree on
+            self.items.append(f"{k}:{cps(entity.dxf.name.lower())}")
+
+
 def correspond(ctx):
+    # X5 first: it needs its own comparison (a value the model marks "T" = "taken from a target object" matches anything)
+    cases5 = []
+    corr_overrides(ctx, cases5)
+    model5 = ctx.driver("C17", [c[0] for c in cases5], build=DRIVER_DEPS)
+    plain = []
+    for (req, impl, nontriv, wild), model in zip(cases5, model5):
+        if wild:
+            mf, imf = model.split(";"), impl.split(";")
+            if len(mf) == len(imf):
+                impl = ";".join(m if m.endswith("=" + wild) and m.split("=")[0] == i.split("=")[0] else i for m, i in zip(mf, imf))
+        plain.append((req, impl, nontriv))
+    ctx.correspond("X5 overrides", "C17", plain)
     for name, fn in (("X1 pointers", corr_pointers), ("X2 unique names", corr_unique), ("X3 policy", corr_policy),
                      ("X4 abstract transfer", corr_transfer)):
         cases = []
@@ -1813,6 +2426,8 @@ def correspond(ctx):
 FIXED_CASES = [
     # F14, minimal: block INNER + INSERT in the source, block INNER in the target, default policy
     {"fixed": "f14"},
+    # session 3, minimal inputs of the defects fixed by 1a82fa447 5066701a1 51cedc321 54dafdef4 (two plain ezdxf.new() documents)
+    {"fixed": "block-content-once"}, {"fixed": "mlinestyle"}, {"fixed": "softdict"}, {"fixed": "vp-frozen"},
 ]
 
 
@@ -1843,6 +2458,68 @@ def run_fixed(name):
                 if site is None:
                     raise
                 fails.append((f"crash/{type(e).__name__}/{site}/{pol}", f"load_modelspace with {pol}, block name clash: {type(e).__name__}: {e}"))
+    if name == "block-content-once":
+        # handles of source and target come from the same range: a handle that is translated twice resolves to an unrelated entity
+        src, tgt = ezdxf.new(), ezdxf.new()
+        src.appids.add("VAPP")
+        src.styles.add("A", font="arial.ttf")
+        src.styles.add("$0$A", font="txt.shx")
+        tgt.styles.add("A", font="isocp.shx")
+        b = src.blocks.new("B")
+        l1, c1 = b.add_line((0, 0), (1, 1)), b.add_circle((0, 0), 1)
+        l1.set_xdata("VAPP", [(1005, c1.dxf.handle)])
+        b.add_text("x", dxfattribs={"style": "A"})
+        src.modelspace().add_blockref("B", (0, 0))
+        for i in range(60):
+            src.modelspace().add_point((i, 0))
+        xref.load_modelspace(src, tgt, conflict_policy=xref.ConflictPolicy.NUM_PREFIX)
+        tb = tgt.blocks.get("B")
+        ref = tgt.entitydb.get(tb[0].get_xdata("VAPP")[0].value)
+        if ref is not tb[1]:
+            fails.append(("wrong-pointer/LINE/1005/block-content", f"XDATA handle of a LINE inside a transferred block refers to {ref}, expected its sibling {tb[1]}"))
+        st = tb[2].dxf.style
+        if tgt.styles.get(st).dxf.font != "arial.ttf":
+            fails.append(("attr-changed/TEXT/7/block-content", f"TEXT inside a transferred block: style 'A' (arial.ttf) became {st!r} ({tgt.styles.get(st).dxf.font})"))
+    if name == "mlinestyle":
+        src, tgt = ezdxf.new(), ezdxf.new()
+        src.linetypes.add("DASHX", pattern=[0.5, 0.25, -0.25])
+        ms = src.mline_styles.new("MLS1")
+        ms.elements.append(0.5, 1, "DASHX")
+        src.modelspace().add_mline([(0, 0), (3, 0)], dxfattribs={"style_name": "MLS1"})
+        xref.load_modelspace(src, tgt, conflict_policy=xref.ConflictPolicy.XREF_PREFIX)
+        if [e.linetype for e in src.mline_styles.get("MLS1").elements] != ["DASHX"]:
+            fails.append(("source-changed/MLINESTYLE/6", "element linetype of the SOURCE MLINESTYLE was renamed"))
+        got = [e.linetype for e in tgt.mline_styles.get("$0$MLS1").elements]
+        if got != ["$0$DASHX"]:
+            fails.append(("attr-changed/MLINESTYLE/6", f"element linetype of the copied MLINESTYLE is {got}, the transferred linetype is '$0$DASHX'"))
+    if name == "softdict":
+        src, tgt = ezdxf.new(), ezdxf.new()
+        src.entitydb.handles.reset("A000")
+        mat = src.materials.new("M1")
+        line = src.modelspace().add_line((0, 0), (1, 1))
+        line.dxf.material_handle = mat.dxf.handle
+        line.new_extension_dict().add_dictionary("VSOFT", hard_owned=False).add("MAT", mat)
+        xref.load_modelspace(src, tgt)
+        soft = tgt.modelspace()[0].get_extension_dict().dictionary.get("VSOFT")
+        for k, v in soft.items():
+            if getattr(v, "doc", None) is not tgt:
+                fails.append(("leak/DICTIONARY/350/soft-owner", f"entry {k!r} of the copied soft-owner DICTIONARY is {v} of the SOURCE document"))
+    if name == "vp-frozen":
+        for pol, want in (("KEEP", ["L1", "L2"]), ("XREF_PREFIX", ["$0$L1", "$0$L2"])):
+            src, tgt = ezdxf.new("R2010"), ezdxf.new("R2010")
+            src.layers.add("L1")
+            src.layers.add("L2")
+            psp = src.layouts.new("Sheet A")
+            psp.add_line((0, 0), (1, 1), dxfattribs={"layer": "L1"})
+            psp.add_viewport(center=(5, 5), size=(4, 4), view_center_point=(0, 0), view_height=10).frozen_layers = ["L1", "L2"]
+            xref.load_paperspace(psp, tgt, conflict_policy=getattr(xref.ConflictPolicy, pol))
+            for lay in tgt.layouts:
+                for e in lay:
+                    if e.dxftype() == "VIEWPORT" and e.frozen_layers:
+                        missing = [n for n in e.frozen_layers if not tgt.layers.has_entry(n)]
+                        if missing or list(e.frozen_layers) != want:
+                            fails.append((f"resource-missing/LAYER/VIEWPORT-frozen/{pol}", f"copied VIEWPORT freezes {list(e.frozen_layers)}, expected {want}; "
+                                                                                         f"not in the target: {missing}"))
     return fails
 
 
